@@ -151,7 +151,7 @@ def signature(kind, label, widths, vals, exp, got, outlen, raised):
 
 # --------------------------------------------------------------------------- running PyRTL
 
-def build_and_sim(widths, gens, cases, bit_inputs=False):
+def build_and_sim(widths, gens, cases, fast=False):
     """build every generator of `gens` on fresh Inputs of the given widths in one block and
     simulate all cases.  Returns (lens, errs, rows)."""
     errs = [None] * len(gens)
@@ -180,7 +180,9 @@ def build_and_sim(widths, gens, cases, bit_inputs=False):
     rows = []
     if live:
         tracer = pyrtl.SimulationTrace(wires_to_track=live, block=block)
-        sim = pyrtl.Simulation(tracer=tracer, block=block)
+        # exhaustive sweeps (thousands of vectors per design) use FastSimulation for speed;
+        # everything else uses the reference-checked pyrtl.Simulation
+        sim = (pyrtl.FastSimulation if fast else pyrtl.Simulation)(tracer=tracer, block=block)
         names = ['i%d' % k for k in range(len(widths))]
         for vals in cases:
             sim.step(dict(zip(names, vals)))
@@ -193,8 +195,23 @@ def build_and_sim(widths, gens, cases, bit_inputs=False):
 
 def job_cases(job):
     if job['cases'] == 'all':
-        return list(itertools.product(*[range(1 << w) for w in job['widths']]))
+        ws = job['widths']
+        lo, hi = job.get('arange', (0, 1 << ws[0]))
+        return list(itertools.product(range(lo, hi), *[range(1 << w) for w in ws[1:]]))
     return [tuple(c) for c in job['cases']]
+
+
+def split_exhaustive(job, maxvec):
+    """split an exhaustive sweep into ranges of the first operand (parallelism)"""
+    ws = job['widths'] + ([1] if job['kind'] == 'add2' else [])
+    per_a = 1
+    for w in ws[1:]:
+        per_a <<= w
+    na = 1 << ws[0]
+    step = max(1, maxvec // per_a)
+    if step >= na:
+        return [job]
+    return [dict(job, arange=(lo, min(na, lo + step))) for lo in range(0, na, step)]
 
 
 def job_gens(job):
@@ -241,7 +258,8 @@ def exec_comb(job):
     widths = list(job['widths'])
     if job['kind'] == 'add2':
         widths = widths[:2] + [1]
-    lens, errs, rows = build_and_sim(widths, gens, job_cases(dict(job, widths=widths)))
+    lens, errs, rows = build_and_sim(widths, gens, job_cases(dict(job, widths=widths)),
+                                     fast=bool(job.get('exh')))
     return {'lens': lens, 'errs': errs, 'rows': rows}
 
 
@@ -288,18 +306,23 @@ def triples(cs):
     return '[' + '; '.join('(%d, %d, %d)' % tuple(c) for c in cs) + ']'
 
 
+def allc(job, wb, wc):
+    lo, hi = job.get('arange', (0, 1 << job['widths'][0]))
+    return '(all_cases3r %d %d %d %d)' % (lo, hi, wb, wc)
+
+
 def coq_expr(job):
     k = job['kind']
     w = job['widths']
     if k == 'add2':
-        cases = '(all_cases3 %d %d 1)' % (w[0], w[1]) if job['cases'] == 'all' else triples(job['cases'])
+        cases = allc(job, w[1], 1) if job['cases'] == 'all' else triples(job['cases'])
         return 'h_add2 %d %d %s' % (w[0], w[1], cases)
     if k == 'mul2':
-        cases = '(all_cases3 %d %d 0)' % (w[0], w[1]) if job['cases'] == 'all' else \
+        cases = allc(job, w[1], 0) if job['cases'] == 'all' else \
             triples([(c[0], c[1], 0) for c in job['cases']])
         return 'h_mul2 %d %d %s' % (w[0], w[1], cases)
     if k == 'tri':
-        cases = '(all_cases3 %d %d %d)' % tuple(w) if job['cases'] == 'all' else triples(job['cases'])
+        cases = allc(job, w[1], w[2]) if job['cases'] == 'all' else triples(job['cases'])
         return 'h_tri %d %d %d %s' % (w[0], w[1], w[2], cases)
     if k == 'fga':
         return 'h_fga %d %d %s [%s]' % (job['ra'][0], job['ra'][1], zlist(w),
@@ -379,16 +402,16 @@ def make_jobs(ctx):
     # exhaustive sweeps, smallest widths first (so the first failing case is the smallest)
     for wa in range(1, ex2 + 1):
         for wb in range(1, ex2 + 1):
-            jobs.append({'kind': 'add2', 'widths': [wa, wb], 'cases': 'all', 'exh': True})
-            jobs.append({'kind': 'mul2', 'widths': [wa, wb], 'cases': 'all', 'exh': True})
+            jobs += split_exhaustive({'kind': 'add2', 'widths': [wa, wb], 'cases': 'all', 'exh': True}, 512)
+            jobs += split_exhaustive({'kind': 'mul2', 'widths': [wa, wb], 'cases': 'all', 'exh': True}, 128)
     for wa in range(1, ex3 + 1):
         for wb in range(1, ex3 + 1):
             for wc in range(1, ex3 + 1):
-                jobs.append({'kind': 'tri', 'widths': [wa, wb, wc], 'cases': 'all', 'exh': True})
+                jobs += split_exhaustive({'kind': 'tri', 'widths': [wa, wb, wc], 'cases': 'all', 'exh': True}, 128)
     # mixed widths up to 16: boundary + random values
     rng = ctx.sub_rng('mixed')
-    npairs = 30 if quick else 200
-    nvec = 24 if quick else 60
+    npairs = 20 if quick else 200
+    nvec = 16 if quick else 60
     pairs = set()
     while len(pairs) < npairs:
         wa, wb = rng.randint(1, 16), rng.randint(1, 16)
@@ -400,8 +423,10 @@ def make_jobs(ctx):
         cs += [((1 << wa) - 1, (1 << wb) - 1, 1), ((1 << wa) - 1, 0, 1), (0, (1 << wb) - 1, 1)]
         jobs.append({'kind': 'add2', 'widths': [wa, wb], 'cases': cs})
         r = ctx.sub_rng('mul2', wa, wb)
-        jobs.append({'kind': 'mul2', 'widths': [wa, wb], 'cases': sample_vectors(r, [wa, wb], nvec)})
-    ntri = 16 if quick else 120
+        k = len(jobs)
+        jobs.append({'kind': 'mul2', 'widths': [wa, wb], 'cases': sample_vectors(r, [wa, wb], nvec),
+                     'sel': None if not quick else [k % 6, (k + 3) % 6 if k % 2 else 6, 6]})
+    ntri = 8 if quick else 120
     tris = set()
     while len(tris) < ntri:
         t = (rng.randint(1, 12), rng.randint(1, 12), rng.randint(1, 16))
@@ -411,7 +436,9 @@ def make_jobs(ctx):
     tris.update([(2, 2, 3), (3, 3, 5), (4, 4, 8), (4, 4, 7), (5, 3, 9)])
     for t in sorted(tris):
         r = ctx.sub_rng('tri', *t)
-        jobs.append({'kind': 'tri', 'widths': list(t), 'cases': sample_vectors(r, list(t), nvec)})
+        k = len(jobs)
+        jobs.append({'kind': 'tri', 'widths': list(t), 'cases': sample_vectors(r, list(t), nvec),
+                     'sel': None if not quick else [k % 3, 3 + k % 6, 3 + (k + 3) % 6, 9 + k % 6, 9 + (k + 4) % 6]})
     # a few wide ones
     wide = [(64, 64), (63, 65)] if quick else [(63, 63), (64, 64), (65, 65), (63, 65), (65, 64), (64, 1), (1, 65)]
     for (wa, wb) in wide:
@@ -688,11 +715,14 @@ def compare_seq(ctx, col, job, res, model):
 
 
 def run(ctx):
+    import time
+    t0 = time.time()
     jobs = make_jobs(ctx)
     # 1. PyRTL side (parallel over designs; each worker owns its working block)
     mp = multiprocessing.get_context('fork')
     with mp.Pool(processes=14) as pool:
         results = pool.map(exec_job, jobs, chunksize=1)
+    t1 = time.time()
     # 2. Coq side
     exprs = [coq_expr(j) for j in jobs]
     try:
@@ -700,6 +730,7 @@ def run(ctx):
     except Exception as e:
         ctx.model_mismatch('Lib/C13Harness.v could not be evaluated: %s' % str(e)[-800:], {})
         models = None
+    t2 = time.time()
     col = Collector()
     variants = {}
     for ji, (job, res) in enumerate(zip(jobs, results)):
@@ -717,6 +748,8 @@ def run(ctx):
         ctx.count('model_variant_matched', '%s:%s' % (base, '+'.join(sorted(vs))))
         if 'repaired' in vs and ('as-is' in vs):
             ctx.model_mismatch('%s matches the as-is model on some widths and the repaired model on others' % base, {})
+    ctx.notes.append('timing: %d designs; PyRTL build+simulate %.1fs, Coq model evaluation %.1fs, compare %.1fs' % (
+        len(jobs), t1 - t0, t2 - t1, time.time() - t2))
     for sig, (size, what, replay) in sorted(col.spec.items()):
         ctx.spec_violation(sig, what, dict(replay, seed=ctx.seed, tier=ctx.tier))
     for key, (size, what, replay) in sorted(col.tie.items(), key=lambda kv: str(kv[0])):
